@@ -21,7 +21,9 @@ PLACES = {'before': (-5, -2), 'after': (7, 9), 'touching_end': (4, 6), 'touching
 
 QUICK_WIN = [('scaled', dict(T=3, base='storage', win=(1, 3))), ('structured', dict(T=3, inner_win=(0, 2), outer_win=(1, 3))), ('contract_storage', dict(T=4, win_s=(1, 3), win_c=(0, 3))), ('two_node', dict(T=3, win_t=(1, 2))),
              ('multicommodity', dict(T=4, take=(0, 6), win=(1, 3))), ('plant', dict(T=3, fuel=True, win=(1, 3))),
-             ('coarse', dict(T=5, kind='contract', win=(1, 5))), ('contract_storage', dict(T=3, win_s=(-1, 2), win_c=(2, 6)))]
+             ('coarse', dict(T=5, kind='contract', win=(1, 5))), ('contract_storage', dict(T=3, win_s=(-1, 2), win_c=(2, 6))),
+             # windows that start / end between grid points
+             ('contract_storage', dict(T=4, win_s=(0.5, 2.5), win_c=(1, 3.25))), ('two_node', dict(T=4, win_t=(1.75, 3.5)))]
 THOROUGH_WIN = QUICK_WIN + [('structured', dict(T=3, inner_win=(0, 2), outer_win=(1, 3), inner_win_all=True)),
                             ('coarse', dict(T=6, kind='transport', eff=0.5, win=(-1, 5))), ('plant', dict(T=4, fuel=True, heat=True, win=(2, 4))),
                             ('windows', dict(T=5, wins=((0, 2), (1, 2), (3, 5), (4, 5)), two_nodes=True))]
@@ -39,6 +41,11 @@ def cases(tier, seed):
     wins = THOROUGH_WIN if tier == 'thorough' else QUICK_WIN
     for k, (shape, kw) in enumerate(wins):
         out.append(('window_%d_%s' % (k, shape), dict(kind='window', shape=shape, kw=kw)))
+        # the same windows on other kinds of grid (window bounds are grid points of that grid)
+        if shape not in ('coarse',):
+            for gv in shapes.GRID_VARIANTS:
+                if tier == 'thorough' or (k, gv) in ((2, 'day_d_cet_dst'), (3, 'month_d'), (5, 'quarter_min')):
+                    out.append(('window_%d_%s@%s' % (k, shape, gv), dict(kind='window', shape=shape, kw=dict(kw, gridv=gv))))
     places = list(PLACES) if tier == 'thorough' else ['before', 'after']
     for ex in EXTRAS:
         for pl in places:
@@ -53,6 +60,10 @@ def cases(tier, seed):
     # take period on a grid with unequal steps (DST day) for an asset that starts later than the horizon
     out.append(('take_dst_late_asset', dict(kind='take', take=(1, 6), win=(1, 9), freq=['d', '2021-03-26', '2021-03-30', 'CET'])))
     out.append(('take_months_late_asset', dict(kind='take', take=(1, 3), win=(1, 3), freq=['MS', '2021-01-01', '2021-05-01', None], unit='d')))
+    # ... and periods whose covered steps have another total length than the same number of steps at the start of the horizon
+    out.append(('take_dst_late_asset_two_steps', dict(kind='take', take=(1, 3), win=(1, 9), freq=['d', '2021-03-26', '2021-03-30', 'CET'])))
+    out.append(('take_months_asset_from_march', dict(kind='take', take=(2, 4), win=(2, 4), freq=['MS', '2021-01-01', '2021-05-01', None], unit='d')))
+    out.append(('take_months_straddles_end', dict(kind='take', take=(2, 6), win=(1, 9), freq=['MS', '2021-01-01', '2021-05-01', None], unit='d')))
     # a window reaching beyond the horizon is the same as the window clipped to the horizon (identical problem, term by term)
     for ex in ('contract', 'take_contract', 'storage', 'transport', 'multicommodity', 'plant', 'scaled_storage'):
         for pl in (('both_ends',) if tier != 'thorough' else ('both_ends', 'start', 'end')):
